@@ -153,6 +153,15 @@ func HarnessC18Defaults() {
 		s = objWith(map[string]spec.Schema{"a": numSchema(10.0)})
 		s.AllOf = []spec.Schema{objWith(map[string]spec.Schema{"b": numSchema(20.0)})}
 	}
+	if verifTier() > 0 && verifBool() { // thorough: a structured default next to the numeric ones
+		sd := spec.Schema{}
+		sd.Default = map[string]interface{}{"x": []interface{}{1.0, "s"}}
+		if s.Properties == nil {
+			s.Properties = map[string]spec.Schema{}
+		}
+		s.Properties["sd"] = sd
+		keys = append(keys, "sd")
+	}
 	if verifBool() {
 		obj["a"] = verifPickFloat(1, 10)
 	}
@@ -208,6 +217,17 @@ func HarnessC18Nested() {
 	default: // object reached through the second allOf member
 		s.AllOf = []spec.Schema{{}, objWith(map[string]spec.Schema{"o": inner})}
 		data = map[string]interface{}{"o": el}
+	}
+	if verifTier() > 0 && verifBool() { // thorough: the whole structure once more below a property or an array
+		outer := spec.Schema{}
+		if verifBool() {
+			outer = objWith(map[string]spec.Schema{"w": s})
+			data = map[string]interface{}{"w": data}
+		} else {
+			outer.Items = &spec.SchemaOrArray{Schema: &s}
+			data = []interface{}{data}
+		}
+		s = outer
 	}
 	res := validate.NewSchemaValidator(&s, nil, "", nil).Validate(data)
 	verifAssume(res.IsValid())
@@ -381,11 +401,25 @@ func HarnessC19Nested() {
 		s.AllOf = []spec.Schema{{}, objWith(map[string]spec.Schema{"o": inner})}
 		data = map[string]interface{}{"o": el}
 	}
+	if verifTier() > 0 && verifBool() { // thorough: the whole structure once more below a property or an array
+		outer := spec.Schema{}
+		if verifBool() {
+			outer = objWith(map[string]spec.Schema{"w": s})
+			data = map[string]interface{}{"w": data}
+		} else {
+			outer.Items = &spec.SchemaOrArray{Schema: &s}
+			data = []interface{}{data}
+		}
+		s = outer
+	}
 	res := validate.NewSchemaValidator(&s, nil, "", nil).Validate(data)
 	verifAssume(res.IsValid())
 	Prune(res)
 	checkPrunedAt(want, before, el, []string{"a", "z"})
 	if top, ok := data.(map[string]interface{}); ok {
+		if w, wrapped := top["w"].(map[string]interface{}); wrapped {
+			top = w
+		}
 		_, junk := top["junk"]
 		verifAssert(!junk, "undescribed-member-is-removed")
 	}
